@@ -190,7 +190,11 @@ def sweeps(tier, rng):
                         if not _close(a, b, tol):
                             bad = "glyph %r at %r: glyphSet draws %r, HarfBuzz %r" % (nme, loc, pen.value[:5], h.outline(gid)[:5]); break
                         wa = gobj.width; wb = h.advance(gid)        # without HVAR the advance comes from the phantom points, set by draw()
-                        if abs(wa - wb) > (0.51 if loc else 0.01): bad = "advance of %r at %r: glyphSet %r, HarfBuzz %r" % (nme, loc, wa, wb); break
+                        # away from the default location an advance without HVAR is the ROUNDED difference of two interpolated phantom points:
+                        # an exact .5 (generated deltas are multiples of 1/4 at these locations) is decided by float32 noise in one engine
+                        # and by exact halves in the other, so the two may legitimately sit one unit apart
+                        wtol = 0.01 if not loc else (0.51 if "HVAR" in f else 1.01)
+                        if abs(wa - wb) > wtol: bad = "advance of %r at %r: glyphSet %r, HarfBuzz %r" % (nme, loc, wa, wb); break
                 except NotImplementedError:
                     bad = None
                 except Exception as e:
